@@ -190,7 +190,7 @@ func VerifC06Conflict() {
 func VerifC06Cycle() {
 	root := vrtRoot()
 	w := root + "/w"
-	shape := vrtChoice("shape", 4)
+	shape := vrtChoice("shape", 5)
 	a := map[string]any{"services": map[string]any{"sa": map[string]any{"image": "i"}}}
 	b := map[string]any{"services": map[string]any{"sb": map[string]any{"image": "i"}}}
 	cyc := false
@@ -209,9 +209,17 @@ func VerifC06Cycle() {
 		b["include"] = []any{"../compose.yaml"}
 		cyc = true
 	}
+	mainInclude := []any{"a/inc.yaml"}
+	if shape == 4 {
+		// one include entry with two paths (the second is an override of the first); the override file
+		// includes the same pair again
+		mainInclude = []any{map[string]any{"path": []any{"a/inc.yaml", "b/inc.yaml"}}}
+		b["include"] = []any{map[string]any{"path": []any{"../a/inc.yaml", "../b/inc.yaml"}}}
+		cyc = true
+	}
 	vrtYamlFile(w+"/a/inc.yaml", a)
 	vrtYamlFile(w+"/b/inc.yaml", b)
-	main := map[string]any{"include": []any{"a/inc.yaml"}, "services": map[string]any{"own": map[string]any{"image": "i"}}}
+	main := map[string]any{"include": mainInclude, "services": map[string]any{"own": map[string]any{"image": "i"}}}
 	vrtYamlFile(w+"/compose.yaml", main)
 	m, err := tcLoad(nil, nil, main)
 	vrtObserve("err", err != nil)
